@@ -312,7 +312,8 @@ def rule4_edges(ctx, m, a, s):
     for c in calls:
         nxt = [g_ for g_ in e.order if g_.op == 'getelementptr' and g_.d.get('coff') == edsz and lib.same_expr(e, g_.d['base'], c.args[0])]
         others = [x for x in calls if x is not c]
-        ctx.ob('C18.4', 'output cursor advances after the edge', bool(nxt) and e.always_passes(c, nxt, to=others + [c] + e.exits()),
+        pre = [g_ for g_ in nxt if g_.block.id == c.block.id and e.dominates_f(g_, c)]       # add_edge(e++, ..): advanced just before the call
+        ctx.ob('C18.4', 'output cursor advances after the edge', bool(nxt) and (bool(pre) or e.always_passes(c, nxt, to=others + [c] + e.exits())),
                'e++ after every dr_pi_dag_add_edge: an edge written over the previous one loses it', loc=c.loc)
     emitted = set(per_create) | set(seq)
     counted = set(acc)
@@ -427,7 +428,11 @@ def rule4_edges(ctx, m, a, s):
         zs = [st for st in ce.order if st.op == 'store' and ce.strip(ce.ap(st.ops[1]).root) == arr[0].id and const_int(st.ops[0]) == 0]
         okz = False
         detail = ''
-        if len(zs) == 1:
+        for mc_ in ce.calls():
+            if (mc_.callee or '').startswith('llvm.memset') and ce.strip(ce.ap(mc_.args[0]).root) == arr[0].id and const_int(mc_.args[1]) == 0 and \
+                    lib.same_expr(ce, mc_.args[2], arr[0].args[0]) and not ce.ap(mc_.args[0]).steps:
+                okz, detail = True, 'memset over the allocated size'
+        if len(zs) == 1 and not okz:
             li = ce.loop_of_block(zs[0].block.id)
             bounds = []
             while li is not None and li >= 0:
